@@ -899,14 +899,18 @@ class Module(HasAccessibles):
         called by the programmer. It might be used in a check_<param> method,
         when no automatic super call is desired.
         """
-        try:
-            min_, max_ = getattr(self, pname + '_limits')
+        # a limit parameter may be missing, or removed in a subclass (<pname>_max = None)
+        limits = getattr(self, pname + '_limits', None)
+        if limits is not None:
+            min_, max_ = limits
             if not min_ <= value <= max_:
                 raise RangeError(f'{pname} outside {pname}_limits')
-        except AttributeError:
-            pass
-        min_ = getattr(self, pname + '_min', float('-inf'))
-        max_ = getattr(self, pname + '_max', float('inf'))
+        min_ = getattr(self, pname + '_min', None)
+        max_ = getattr(self, pname + '_max', None)
+        if min_ is None:
+            min_ = float('-inf')
+        if max_ is None:
+            max_ = float('inf')
         if min_ > max_:
             raise RangeError(f'invalid limits: {pname}_min > {pname}_max')
         if value < min_:
